@@ -287,9 +287,9 @@ Section WithSerialize.
 
   Definition query_text : pyval := PStr "<operation string>".
 
-  Definition call_method (n : nat) (S : schema) (snake : bool) (vs : list vardef)
+  Definition call_method (n : nat) (S : schema) (snake : bool) (nm : string -> string) (vs : list vardef)
              (kwargs : list (string * pyval)) : outcome :=
-    match generate S snake vs with
+    match generate S nm vs with
     | None => GenError
     | Some g =>
         if negb (sig_ok g) then PySyntaxError else
@@ -426,27 +426,27 @@ Section WithSerialize.
         end
     end.
 
-  Fixpoint intended_vars (n : nat) (S : schema) (snake : bool) (vs : list vardef)
+  Fixpoint intended_vars (n : nat) (S : schema) (snake : bool) (nm : string -> string) (vs : list vardef)
            (kwargs : list (string * pyval)) : option (list (string * cvalue)) :=
     match vs with
     | [] => Some []
     | v :: r =>
-        match assoc (pname snake (v_name v)) kwargs with
-        | Some a => match intend n S snake (v_type v) a, intended_vars n S snake r kwargs with
+        match assoc (nm (v_name v)) kwargs with
+        | Some a => match intend n S snake (v_type v) a, intended_vars n S snake nm r kwargs with
                     | Some c, Some cs => Some ((v_name v, c) :: cs) | _, _ => None end
         | None => match v_default v with
-                  | Some d => option_map (cons (v_name v, d)) (intended_vars n S snake r kwargs)
-                  | None => intended_vars n S snake r kwargs
+                  | Some d => option_map (cons (v_name v, d)) (intended_vars n S snake nm r kwargs)
+                  | None => intended_vars n S snake nm r kwargs
                   end
         end
     end.
 
   (* every passed argument is typed; every required parameter is passed *)
-  Definition typed_call (n : nat) (S : schema) (snake : bool) (vs : list vardef)
+  Definition typed_call (n : nat) (S : schema) (snake : bool) (nm : string -> string) (vs : list vardef)
              (kwargs : list (string * pyval)) : bool :=
     nodup_str (map fst kwargs) &&
-    forallb (fun p => mem_str (fst p) (map (fun v => pname snake (v_name v)) vs)) kwargs &&
-    forallb (fun v => match assoc (pname snake (v_name v)) kwargs with
+    forallb (fun p => mem_str (fst p) (map (fun v => nm (v_name v)) vs)) kwargs &&
+    forallb (fun v => match assoc (nm (v_name v)) kwargs with
                       | Some a => typed n S snake (v_type v) a
                       | None => negb (is_nonnull (v_type v))
                       end) vs.
@@ -480,17 +480,36 @@ Section WithSerialize.
 
   Definition is_item_name (f : string) : bool := String.prefix "_item" f.
 
-  (* F7 / local clashes: parameter names that break the method (beyond sig_ok) *)
-  Definition names_ok (S : schema) (snake : bool) (vs : list vardef) : bool :=
-    let py := map (fun v => pname snake (v_name v)) vs in
+  Fixpoint strip_us (s : string) : string :=
+    match s with
+    | String c r => if Ascii.eqb c "_"%char then strip_us r else s
+    | EmptyString => s
+    end.
+  (* the name the method's `query` local can take: underscores, then query *)
+  Definition query_like (f : string) : bool := String.eqb (strip_us f) "query".
+
+  Definition ser_name_ok (S : schema) (v : vardef) : bool :=
+    match var_ser S (v_type v) with
+    | Some f => negb (query_like f) && negb (is_item_name f) && negb (String.eqb f "UNSET")
+    | None => true
+    end.
+
+  (* what the method body needs from the parameter names (established for the generator's naming in ArgsP /
+     ConvertP: naming_wf) *)
+  Definition names_wf (S : schema) (nm : string -> string) (vs : list vardef) : bool :=
+    let py := map (fun v => nm (v_name v)) vs in
     forallb py_ok_name py && nodup_str py &&
-    negb (mem_str "gql" py) &&
-    negb (mem_str "query" py && mem_str "_query" py) &&
-    negb (mem_str "UNSET" py) &&
-    forallb (fun v => match var_ser S (v_type v) with
-                      | Some f => negb (mem_str f py) && negb (String.eqb f "query") && negb (String.eqb f "_query")
-                                  && negb (is_item_name f) && negb (String.eqb f "UNSET")
-                      | None => true end) vs.
+    negb (mem_str "gql" py) && negb (mem_str "UNSET" py) &&
+    forallb (fun v => match var_ser S (v_type v) with Some f => negb (mem_str f py) | None => true end) vs &&
+    forallb (ser_name_ok S) vs.
+
+  (* THE GUARD THAT REMAINS after /repo 7f3b78b (clashing parameters and locals are renamed): names that
+     process_name itself breaks (_1 -> 1: no identifier), and a serialize FUNCTION that is itself called like a
+     method local (query, _query, ...), like a comprehension variable (_itemN) or UNSET *)
+  Definition ident_ok (s : string) : bool := py_identifier (s2l s) && negb (iskeyword (s2l s)).
+
+  Definition names_ok (S : schema) (snake : bool) (vs : list vardef) : bool :=
+    forallb (fun v => ident_ok (base_name snake (v_name v))) vs && forallb (ser_name_ok S) vs.
 End WithSerialize.
 
 (* instrumented serialize used by the harness and by the witnesses:
@@ -556,7 +575,7 @@ Definition run_args (e : sexp) : sexp :=
   | L [A "gen"; sn; sch; vs] =>
       match dB sn, schema_of_sexp sch, dList vardef_of_sexp vs with
       | Some snake, Some Sc, Some vds =>
-          match generate Sc snake vds with
+          match generate Sc (naming Sc snake vds) vds with
           | Some g => L [A "ok"; sGenerated g; sB (sig_ok g); sB (names_ok Sc snake vds);
                          sB (inputs_ok Sc snake); sB (g_f21 Sc)]
           | None => A "gen-error" end
@@ -564,9 +583,9 @@ Definition run_args (e : sexp) : sexp :=
   | L [A "call"; sn; sch; vs; kw] =>
       match dB sn, schema_of_sexp sch, dList vardef_of_sexp vs, kwargs_of_sexp kw with
       | Some snake, Some Sc, Some vds, Some kwargs =>
-          L [sOutcome (call_method ser_inst FUEL Sc snake vds kwargs);
-             sB (typed_call FUEL Sc snake vds kwargs);
-             sOptB (intended_vars ser_inst FUEL Sc snake vds kwargs);
+          L [sOutcome (call_method ser_inst FUEL Sc snake (naming Sc snake vds) vds kwargs);
+             sB (typed_call FUEL Sc snake (naming Sc snake vds) vds kwargs);
+             sOptB (intended_vars ser_inst FUEL Sc snake (naming Sc snake vds) vds kwargs);
              sB (forallb (fun p => constructed FUEL Sc snake (snd p)) kwargs)]
       | _, _, _, _ => sErr "call: decode" end
   | L [A "coerce"; sch; vs; prov] =>
